@@ -420,4 +420,6 @@ def run(repo='/repo', tier='quick'):
             res.check(ok, 'C03.c', '%s:accumulate:%s' % (fn.name, cnt), 'memcpy appends at the counter that is then advanced', 'memcpy into a buffer whose fill counter %s is advanced by the same length does not target buffer + %s' % (cnt, cnt), c['loc'])
     res.assumptions += ['the statement is about well-formed exchanges: look-ahead sites whose two outcomes agree on well-formed input are tabled with their reason (AGREE) rather than alarmed',
                         'equality of the two parses as values is not decided; multipart / urlencoded carry state is covered by C14 / C15']
+    from . import sentinel
+    sentinel.run(db, res, 'C03.g', lambda f: not f.loc.startswith('htp/htp_urlencoded.c') and not f.loc.startswith('htp/lzma'), 20)
     return res
